@@ -91,6 +91,25 @@ class Tr:
         """-> Gallina term of type option bool"""
         if isinstance(t, ast.Compare) and len(t.ops) == 1 and type(t.ops[0]) in CMP:
             return "(ocmp %s %s %s)" % (CMP[type(t.ops[0])], self.expr(t.left), self.expr(t.comparators[0]))
+        if isinstance(t, ast.Compare) and len(t.ops) > 1 and all(type(o) in CMP for o in t.ops):
+            # chained comparison a op1 b op2 c = (a op1 b) and (b op2 c), left to right with short circuit (the operands here are
+            # names and constants: evaluating b twice is evaluating it once)
+            terms = [t.left] + list(t.comparators)
+            if not all(isinstance(x, (ast.Name, ast.Constant)) or (isinstance(x, ast.UnaryOp) and isinstance(x.operand, ast.Constant)) for x in terms[1:-1]):
+                _fail(t, "chained comparison with a compound middle operand")
+            parts = ["(ocmp %s %s %s)" % (CMP[type(o)], self.expr(a), self.expr(b)) for o, a, b in zip(t.ops, terms[:-1], terms[1:])]
+            out = parts[-1]
+            for p in reversed(parts[:-1]):
+                out = "(oandb %s %s)" % (p, out)
+            return out
+        if isinstance(t, ast.BoolOp) and isinstance(t.op, (ast.And, ast.Or)):
+            parts = [self.cond(v) for v in t.values]
+            out = parts[-1]
+            for p in reversed(parts[:-1]):
+                out = "(%s %s %s)" % ("oandb" if isinstance(t.op, ast.And) else "oorb", p, out)
+            return out
+        if isinstance(t, ast.UnaryOp) and isinstance(t.op, ast.Not):
+            return "(option_map negb %s)" % self.cond(t.operand)
         _fail(t, "unsupported condition")
 
     # ---- statements (continuation passing: k_next / k_break / k_cont are Gallina terms over the current locals) ---
